@@ -679,6 +679,38 @@ def frozen_refs(root: str) -> list:
 
 
 def run_frozen_case(case: dict, stats: Stats | None = None) -> dict:
+    """A SEQUENCE of frozen references served by one process (a resolver may keep state between calls), executed in a fork of
+    this worker so that no earlier case can influence it and a replay sees exactly the same process history."""
+    from .common import in_fork
+
+    def child():
+        viols, logs = [], []
+        _layout_state.pop("cur", None)
+        for k, step in enumerate(case["steps"]):
+            sub = {"variant": case["variant"], "ref": step["ref"], "via": step["via"], "tamper": step.get("tamper")}
+            res = _run_frozen_step(sub, None, first=(k == 0))
+            for v in res["violations"]:
+                v["detail"] = f"step {k} of {[s_['ref'][0] + ('/' + s_['tamper'] if s_.get('tamper') else '') for s_ in case['steps']]}: " + v["detail"]
+                v["signature"] = v["signature"] + (f"|after:{case['steps'][k - 1]['ref'][0]}" if k else "")
+            viols += res["violations"]
+            logs.append(res["log"])
+        root = _layout_state["cur"]["root"]
+        for v in viols:
+            v["detail"] = v["detail"].replace(root, "<R>")
+        return {"violations": viols, "log": json.loads(json.dumps(logs).replace(root, "<R>"))}
+
+    out = in_fork(child, timeout=300)
+    if stats is not None:
+        stats.inc("runs")
+        stats.inc("frozen_sequences")
+        stats.inc("frozen_calls", len(case["steps"]))
+        for lg in out["log"]:
+            stats.group("frozen_outcomes", f"{lg[1]}{'+' + str(lg[2]) if lg[2] else ''}:{'resolved' if lg[3] else 'refused'}")
+        stats.distinct("frozen_behaviours", repr([(lg[0], lg[1], lg[2], bool(lg[3])) for lg in out["log"]]))
+    return {"violations": out["violations"], "log": out["log"], "digest": digest(out["log"])}
+
+
+def _run_frozen_step(case: dict, stats, first: bool) -> dict:
     root, snap0 = ensure_layout(case["variant"])
     home = os.path.join(root, "home")
     cache = os.path.realpath(os.path.join(home, ".octave", "standards"))
@@ -686,11 +718,15 @@ def run_frozen_case(case: dict, stats: Stats | None = None) -> dict:
     ref = ref.replace("<R>", root)
     via = case["via"]
     if case.get("tamper"):
-        # cache corruption between runs: the good file no longer holds the bytes its name promises
+        # cache corruption between calls: the good file no longer holds the bytes its name promises.
+        # 'stealth' keeps size and mtime (BAD_STD has the same length), so a stat signature cannot tell
+        gp = os.path.join(cache, f"{GOOD_DIGEST[:16]}.oct.md")
         with seam.passthrough():
-            with open(os.path.join(cache, f"{GOOD_DIGEST[:16]}.oct.md"), "wb") as f:
+            st_ = os.stat(gp)
+            with open(gp, "wb") as f:
                 f.write(BAD_STD)
-        mark_dirty()
+            if case["tamper"] == "stealth":
+                os.utime(gp, ns=(st_.st_atime_ns, st_.st_mtime_ns))
         snap0 = snapshot_m(root)
 
     def fn():
@@ -783,13 +819,11 @@ def run_frozen_case(case: dict, stats: Stats | None = None) -> dict:
                 V("R4.outside", f"resolved to {_rel(used_path, root)}, outside the standards cache")
     if d:
         V("R4.changed", f"tree changed: {d[:4]}")
-    log = [via, label, bool(case.get("tamper")), _rel(used_path, root) if used_path else None, [_rel(p, root) for p in opened],
+    log = [via, label, case.get("tamper") or None, _rel(used_path, root) if used_path else None, [_rel(p, root) for p in opened],
            a.outcome if a.outcome != "returned" else "ok"]
-    if stats is not None:
-        stats.inc("runs")
-        stats.inc("frozen_calls")
-        stats.group("frozen_outcomes", f"{label}{'+tampered' if case.get('tamper') else ''}:{'resolved' if used_path else 'refused'}")
-        stats.distinct("frozen_behaviours", repr((via, label, bool(case.get("tamper")), bool(used_path))))
+    if "cur" in _layout_state:
+        _layout_state["cur"]["snap"] = snapshot_m(root)  # later steps are judged against the tree as this step left it
+        _layout_state["cur"]["dirty"] = False
     return {"violations": viols, "log": log, "digest": digest(log)}
 
 
@@ -893,6 +927,8 @@ def run_case(case: dict, stats: Stats | None = None) -> dict:
     fn = {"path": run_path_case, "schema": run_schema_case, "schema_sweep": run_schema_sweep, "frozen": run_frozen_case,
           "uri": run_uri_case}[k]
     res = fn(case, stats)
+    if k == "frozen":
+        return res  # executed (and masked) in a forked child
     # the per-process scratch root must never leak into logs, details or digests
     root = _layout_state["cur"]["root"]
     res["log"] = json.loads(json.dumps(res["log"]).replace(root, "<R>"))
@@ -929,10 +965,20 @@ def gen_case(kind: str, vseed: int, j: int) -> dict:
         c["via"] = t.weighted([("loader", 5), ("validate", 2), ("write", 2), ("cli_validate", 1)], "s.via")
         c["cwd"] = t.pick(["proj", "sb", "proj/specs", "home"], "s.cwd")
     elif kind == "frozen":
+        # j enumerates ALL ordered pairs of (reference, entry point) x what happens to the cache in between
         refs = frozen_refs("<R>")
-        c["ref"] = list(refs[j % len(refs)])
-        c["via"] = ["resolve", "write", "resolve_cache_dir"][(j // len(refs)) % 3]
-        c["tamper"] = bool((j // (3 * len(refs))) % 2)
+        vias = ["resolve", "write", "resolve_cache_dir"]
+        n1 = len(refs) * len(vias)
+        a_, rest = j % n1, j // n1
+        b_, rest = rest % n1, rest // n1
+        tam = [None, "rewrite", "stealth"][rest % 3]
+        steps = [{"ref": list(refs[a_ % len(refs)]), "via": vias[a_ // len(refs)]},
+                 {"ref": list(refs[b_ % len(refs)]), "via": vias[b_ // len(refs)], "tamper": tam}]
+        if rest >= 3:
+            # beyond the exhaustive pairs: seeded longer sequences
+            steps = [{"ref": list(t.pick(refs, "fz.ref")), "via": t.pick(vias, "fz.via"), "tamper": t.pick([None, None, "rewrite", "stealth"], "fz.t")}
+                     for _ in range(3 + t.choose(3, "fz.n"))]
+        c["steps"] = steps
     elif kind == "uri":
         c["uri"] = URI_SEGS[j % len(URI_SEGS)] if j < 4 * len(URI_SEGS) else "/".join(
             t.pick(["..", "inner", "ln_out", "ln_sibling", ".", "v.oct.md", "secret.txt", "docs", "out", "", "vocab-private", "vocab2",
@@ -946,10 +992,10 @@ def gen_case(kind: str, vseed: int, j: int) -> dict:
 def units(tier: str, vseed: int) -> list:
     out = []
     if tier == "quick":
-        plan = [("path", 64, 400), ("schema", 16, 250), ("frozen", 2, 126), ("uri", 4, 120)]
+        plan = [("path", 64, 400), ("schema", 16, 250), ("frozen", 48, 250), ("uri", 4, 120)]  # 48*250 >= all 11 907 frozen pairs
         sweep_len = 4
     else:
-        plan = [("path", 1600, 800), ("schema", 320, 500), ("frozen", 8, 126), ("uri", 64, 240)]
+        plan = [("path", 1600, 800), ("schema", 320, 500), ("frozen", 200, 250), ("uri", 64, 240)]
         sweep_len = 5
     for kind, n, per in plan:
         for i in range(n):
